@@ -94,23 +94,61 @@ Proof.
   - simpl. intros [E|E]; [discriminate|exact (IH _ _ E)].
 Qed.
 
+(* TRUNCATION, any cut strictly inside batch k (token index i of the batch, [p] the part of that
+   token that survives: p = [] is a cut at a token boundary), with repair 2 in place:
+   the batches before k, then an error that is not end-of-stream, for ever *)
+Theorem truncation_never_eof st0 s0 pre f dests i p q :
+  let wk := fold_left WRITE pre (w_init St Sess st0 s0) in
+  let toks := full_toks St enc_tok Sess cenc sch wk f in
+  fix_eof cf = true ->
+  Forall (wf_frame sch) pre -> wf_frame sch f -> Forall (wf_frame sch) dests ->
+  i < length toks ->
+  fst (enc_tok (st_after St enc_tok (wst wk) (firstn i toks)) (nth i toks dflt)) = p ++ q ->
+  q <> [] -> (1 <= i \/ p <> []) ->
+  exists e, e <> EEOF /\
+    READS (r_init St Sess (wout wk ++ bytes_of St enc_tok (wst wk) (firstn i toks) ++ p) st0 s0) dests
+    = spec_reads e pre [] (map flen dests).
+Proof.
+  intros wk toks Hfix Hpre Hf Hd Hi Hpq Hq Hpos.
+  destruct p as [|b p].
+  - (* at a token boundary *)
+    destruct Hpos as [Hpos|Hpos]; [|congruence].
+    exists (cut_err_tok cf SIoEOF (nth i toks dflt)). split.
+    + unfold cut_err_tok. rewrite Hfix. destruct (nth i toks dflt); discriminate.
+    + rewrite app_nil_r.
+      apply (truncation_at_boundary St enc_tok dec_tok Sess cenc cdec cf H_dec_enc H_dec_nil H_codec sch);
+        try assumption. split; assumption.
+  - exists EUnexpected. split; [discriminate|].
+    destruct i as [|i].
+    + (* inside the length token *)
+      subst toks. unfold full_toks, bt, batch_toks in Hpq. cbn [firstn bytes_of st_after nth app] in Hpq |- *.
+      apply (truncation_in_length_token St enc_tok dec_tok Sess cenc cdec cf H_dec_enc H_dec_trunc H_codec sch
+               st0 s0 pre f dests (b :: p) q); try assumption. discriminate.
+    + apply (truncation_inside_token St enc_tok dec_tok Sess cenc cdec cf H_dec_enc H_dec_trunc H_codec sch
+               st0 s0 pre f dests (S i) (b :: p) q); try assumption.
+      * split; [apply le_n_S, Nat.le_0_l|exact Hi].
+      * discriminate.
+Qed.
+
 End Codec.
 
 (* ---------------------------------------------------------------- what each configuration does at a cut *)
 Lemma cut_unexpected cf next : cut_err_tok cf SUnexpected next = EUnexpected.
 Proof. destruct next; reflexivity. Qed.
 
-(* codec.go as it is: end of input where a gob-encoded column should start is reported as end-of-stream *)
-Lemma cut_before_gob_column_is_eof cf d : fix_eof cf = false -> cut_err_tok cf SIoEOF (TCol d) = EEOF.
+(* the code before repair 2: end of input where a gob-encoded column should start was reported as end-of-stream *)
+Lemma cut_before_gob_column_was_eof cf d : fix_eof cf = false -> cut_err_tok cf SIoEOF (TCol d) = EEOF.
 Proof. intro H. unfold cut_err_tok. rewrite H. reflexivity. Qed.
 
-(* with fix 2 no cut inside a batch is ever reported as end-of-stream *)
+(* with repair 2 no cut inside a batch is ever reported as end-of-stream *)
 Lemma cut_fixed_never_eof cf term next : fix_eof cf = true -> cut_err_tok cf term next <> EEOF.
 Proof. intro H. unfold cut_err_tok. rewrite H. destruct next, term; discriminate. Qed.
 
-(* ---------------------------------------------------------------- closed instances over the toy codec *)
-Definition toy_wf := wf_frame.
+(* the model of the code as it is has all three repairs *)
+Lemma code_cfg_is_fixed : fix_len code_cfg = true /\ fix_eof code_cfg = true /\ fix_collen code_cfg = true.
+Proof. repeat split. Qed.
 
+(* ---------------------------------------------------------------- closed instances over the toy codec *)
 Theorem toy_roundtrip cf sch batches dests :
   Forall (wf_frame sch) batches -> Forall (wf_frame sch) dests ->
   Forall (fun d => 1 <= flen d) dests ->
@@ -122,7 +160,7 @@ Proof.
   apply (roundtrip unit toy_enc toy_dec Z cenc_delta cdec_delta cf toy_dec_enc toy_dec_nil delta_codec sch tt 0%Z).
 Qed.
 
-(* non-vacuity: a concrete two-batch stream with a struct and a session-codec column, buffered reads *)
+(* non-vacuity: a concrete three-batch stream with a struct and a session-codec column, buffered reads *)
 Example toy_roundtrip_example :
   toy_reads code_cfg [KStruct; KCodec]
     (toy_encode [KStruct; KCodec] [ [[[1;0];[0;5];[3;4]]; [[10];[12];[11]]] ; [[]; []] ; [[[0;0]]; [[11]]] ]%Z)
@@ -131,36 +169,44 @@ Example toy_roundtrip_example :
       ROk 1 [[[0;0]]; [[11]]]%Z; RErr EEOF ].
 Proof. vm_compute. reflexivity. Qed.
 
-(* ---------------------------------------------------------------- REFUTED: truncation at a token boundary before a gob column *)
-(* one batch of three rows; the stream is cut after the length token and the codec flag of the
-   (gob-encoded) column: Read reports a clean end of stream and the three rows are silently lost *)
-Theorem trunc_boundary_refuted :
+(* ---------------------------------------------------------------- the three repaired defects: witnesses about [defective_cfg],
+   and the same inputs under [code_cfg] *)
+Definition junk4 : list (list (list (list Z))) :=
+  [[[[7777];[7777];[7777];[7777]]]; [[[7777];[7777];[7777];[7777]]]]%Z.
+
+(* 1. one batch of three rows; the stream is cut after the length token and the codec flag of the
+   (gob-encoded) column: the old Read reported a clean end of stream, the three rows silently lost *)
+Theorem trunc_boundary_defective_witness :
   exists sch batches cut dests,
     Forall (wf_frame sch) batches /\ Forall (wf_frame sch) dests /\
     0 < cut < length (toy_encode sch batches) /\ rows_of batches = 3 /\
-    toy_reads code_cfg sch (firstn cut (toy_encode sch batches)) dests = [RErr EEOF; RErr EEOF].
+    toy_reads defective_cfg sch (firstn cut (toy_encode sch batches)) dests = [RErr EEOF; RErr EEOF] /\
+    toy_reads code_cfg sch (firstn cut (toy_encode sch batches)) dests = [RErr EUnexpected; RErr EUnexpected].
 Proof.
-  exists [KGob], [[[[1];[2];[3]]]]%Z, 7, [[[[7777];[7777];[7777];[7777]]]; [[[7777];[7777];[7777];[7777]]]]%Z.
-  repeat split; try (vm_compute; reflexivity); try (vm_compute; lia).
-  - repeat constructor.
-  - repeat constructor.
+  exists [KGob], [[[[1];[2];[3]]]]%Z, 7, junk4.
+  repeat split; try (vm_compute; reflexivity); try (vm_compute; lia); repeat constructor.
 Qed.
 
-(* the same input under fix 2 *)
-Example trunc_boundary_fixed_example :
-  toy_reads fixed_cfg [KGob] (firstn 7 (toy_encode [KGob] [[[[1];[2];[3]]]]%Z))
-            [[[[7777];[7777];[7777];[7777]]]]%Z = [RErr EUnexpected].
-Proof. vm_compute. reflexivity. Qed.
-
-(* ---------------------------------------------------------------- REFUTED: a negative batch length panics *)
-Theorem negative_length_refuted :
+(* 2. a negative batch length: the old Read panicked *)
+Theorem negative_length_defective_witness :
   exists sch inp dests, Forall (wf_frame sch) dests /\
-    toy_reads code_cfg sch inp dests = [RPanic].
+    toy_reads defective_cfg sch inp dests = [RPanic] /\
+    toy_reads code_cfg sch inp dests = [RErr EBadLen; RErr EBadLen].
 Proof.
-  exists [KGob], (fst (toy_enc tt (TLen (-4)))), [[[[7777];[7777];[7777];[7777]]]]%Z.
-  split; [repeat constructor|vm_compute; reflexivity].
+  exists [KGob], (fst (toy_enc tt (TLen (-4)))), junk4.
+  split; [repeat constructor|split; vm_compute; reflexivity].
 Qed.
 
-Example negative_length_fixed_example :
-  toy_reads fixed_cfg [KGob] (fst (toy_enc tt (TLen (-4)))) [[[[7777];[7777];[7777];[7777]]]]%Z = [RErr EBadLen].
-Proof. vm_compute. reflexivity. Qed.
+(* 3. the length token says 1 row, the gob column carries 3: the old code decoded on (and panicked
+   "gob reallocated a slice" when the capacity was exceeded, which the model does not represent);
+   here it reaches the checksum token and only then fails; now it is an integrity error at once *)
+Theorem length_mismatch_defective_witness :
+  exists sch inp dests, Forall (wf_frame sch) dests /\
+    toy_reads defective_cfg sch inp dests = [RErr ERawEOF; RErr ERawEOF] /\
+    toy_reads code_cfg sch inp dests = [RErr EIntegrity; RErr EIntegrity].
+Proof.
+  exists [KGob],
+    (fst (toy_enc tt (TLen 1)) ++ fst (toy_enc tt (TFlag false)) ++ fst (toy_enc tt (TCol [[1];[2];[3]]%Z))),
+    junk4.
+  split; [repeat constructor|split; vm_compute; reflexivity].
+Qed.
